@@ -244,7 +244,9 @@ def handle_path_command(args: argparse.Namespace) -> None:  # noqa: PLR0912
         query = args.query
     else:
         try:
-            query = args.path_file.read().strip()
+            # Drop surrounding JSONPath blank space. `str.strip()` would also drop
+            # characters that are part of a name, or that are not allowed at all.
+            query = args.path_file.read().strip(" \t\n\r")
         except UnicodeDecodeError as err:
             if args.debug:
                 raise
